@@ -667,6 +667,10 @@ pub fn run(ctx: &mut Ctx, which: &str) {
     let lb = crate::gen_special::c06_later_base_shapes(inputs.len());
     ctx.count("later_base_vftable_cases", lb.len() as u64);
     inputs.extend(lb);
+    // items named like predefined types next to uses of the predefined types themselves
+    let sp = crate::gen_special::shadow_programs(inputs.len());
+    ctx.count("shadowed_predefined_name_cases", sp.len() as u64);
+    inputs.extend(sp);
     let ua = under_aligned_cases(inputs.len());
     ctx.count("under_aligned_embedding_cases", ua.len() as u64);
     inputs.extend(ua);
@@ -686,6 +690,42 @@ pub fn run(ctx: &mut Ctx, which: &str) {
     ctx.count("exhaustive_small_cases", ex_total as u64);
     ctx.extra.insert("exhaustive_small".into(), json!({"stride": stride, "complete": stride == 1, "cases": ex_total}));
 
+    // an attribute that says where a field is (C01) or how large/aligned a type is (C02) in a
+    // shape pyxis does not read — a string, two arguments, none, an assignment — must not be
+    // skipped silently: the description would be accepted with the field or size elsewhere
+    {
+        let shapes = |name: &str, v: usize| -> Vec<String> { vec![format!("{name}(\"{v}\")"), format!("{name}({v}, 1)"), format!("{name}()"), format!("{name} = {v}"), format!("{name}(x{v})")] };
+        let mut texts: Vec<(String, String)> = vec![];
+        if which == "C01" {
+            for sh in shapes("address", 8) {
+                texts.push(("field-address".into(), format!("#[align(4)] pub type T {{ pub a: u32, #[{sh}] pub b: u32, }}")));
+                texts.push(("base-address".into(), format!("#[align(4)] pub type B {{ pub x: u32, }}\n#[align(4)] pub type T {{ pub a: u32, #[base, {sh}] pub b: B, }}")));
+            }
+        } else {
+            for sh in shapes("size", 16) {
+                texts.push(("type-size".into(), format!("#[{sh}, align(4)] pub type T {{ pub a: u32, }}")));
+                texts.push(("extern-size".into(), format!("#[{sh}, align(4)] extern type X;\npub type T {{ pub x: X, }}")));
+            }
+            for sh in shapes("align", 16) {
+                texts.push(("type-align".into(), format!("#[{sh}] pub type T {{ pub a: u32, pub b: u32, pub c: u64, }}")));
+                texts.push(("extern-align".into(), format!("#[size(4), {sh}] extern type X;\npub type T {{ pub x: X, }}")));
+            }
+        }
+        for (kind, text) in texts {
+            ctx.eval();
+            let Ok(m) = pyxis::parser::parse_str(&text) else {
+                ctx.count("malformed_attribute_shapes_rejected_by_the_parser", 1);
+                continue;
+            };
+            let mods = vec![(ItemPath::from("km_attr"), m)];
+            ctx.nontrivial(crate::rng::fnv(text.as_bytes()));
+            match crate::drive::build_modules(&mods, 8, crate::drive::Opts::default()).result {
+                Ok(_) => ctx.violation(&format!("{which}/malformed-attribute-ignored/{kind}"), &format!("accepted, the attribute was skipped: {text}"), case_json(&mods, 8)),
+                Err(e) if e.stage == Stage::Panic => ctx.violation(&format!("{which}/panic"), &e.msg, case_json(&mods, 8)),
+                Err(_) => ctx.count("malformed_attribute_shapes_rejected", 1),
+            }
+        }
+    }
     let built: Vec<(usize, BuildOutcome)> = inputs
         .par_iter()
         .enumerate()
